@@ -79,27 +79,36 @@ Definition Lclean (s : state) (i : nat) : Prop :=
 Definition L1 (s : state) (i : nat) : Prop :=
   srcs (getn s i) = tracked_of (rlog (getn s i)).
 
-(* a memo that is not running *)
-Definition MemoOK (s : state) (i : nat) : Prop :=
+(* a memo that is not running: structure part ... *)
+Definition MemoOKc (s : state) (i : nat) : Prop :=
   match cache (getn s i) with
   | None => st (getn s i) = Dirty /\ rlog (getn s i) = []
-  | Some _ => (st (getn s i) <> Dirty -> Lcur s i) /\ (st (getn s i) = Clean -> Lclean s i)
+  | Some _ => st (getn s i) = Clean -> Lclean s i
   end.
+(* ... and value part *)
+Definition MemoOKv (s : state) (i : nat) : Prop :=
+  cache (getn s i) <> None -> st (getn s i) <> Dirty -> Lcur s i.
 
 (* [stk] : the nodes whose body is running right now (innermost first).  Nodes not on the
    stack satisfy their resting clauses; nodes on the stack satisfy the clauses about the
    reads they have completed, and every source they are subscribed to is either logged or
-   the one they are reading at this very moment (index > b, the node being served). *)
-Record Inv (stk : list nat) (b : nat) (s : state) : Prop := {
+   has index >= t (t bounds the top frame from below: it is the read being served). *)
+Record InvW (stk : list nat) (t : nat) (s : state) : Prop := {
   inv_wf : WF s;
   inv_err : err s = false;
   inv_l1 : forall i, ~ In i stk -> L1 s i;
-  inv_memo : forall i, memob i = true -> ~ In i stk -> MemoOK s i;
+  inv_memo_c : forall i, memob i = true -> ~ In i stk -> MemoOKc s i;
   inv_run_cur : forall k, In k stk -> Lcur s k;
   inv_run_clean : forall k, In k stk -> Lclean s k;
   inv_run_src : forall k x, In k stk -> In x (srcs (getn s k)) ->
-                In x (tracked_of (rlog (getn s k))) \/ b < x;
-  inv_run_gt : forall k, In k stk -> b < k
+                In x (tracked_of (rlog (getn s k))) \/ t <= x;
+  inv_run_ge : forall k, In k stk -> t <= k;
+  inv_run_nc : forall k, In k stk -> memob k = true -> st (getn s k) <> Clean
+}.
+
+Record Inv (stk : list nat) (t : nat) (s : state) : Prop := {
+  inv_w : InvW stk t s;
+  inv_memo_v : forall i, memob i = true -> ~ In i stk -> MemoOKv s i
 }.
 
 (* ---------------------------------------------------------------- what marking may change *)
